@@ -7,6 +7,424 @@ From OV Require Import Base.Panic Base.Arith Model.Vector Model.Matrix Model.Sol
 Import ListNotations.
 Local Open Scope nat_scope.
 
+(* ---------- Props/pending/C01_round.v.txt ---------- *)
+(* ======================================================================================================
+   C01 (dense direct solvers), rounding half -- package round.  Append to Props/C01.v.
+   The TRIANGULAR half of the backward-error claim, in the STANDARD MODEL of floating-point arithmetic
+   (Base/RoundModel.v; the same Gallina [backsolve] / [solve_lu] / [solve_basic] of Model/Solve.v at ARm), for every
+   size n with n u < 1 (Higham, Accuracy and Stability of Numerical Algorithms, Theorem 8.5):
+     backsolve:             (U + dU) x^ = b ,  |dU| <= gam n |U| ,  U = upper triangle of the matrix handed to backsolve
+     forward substitution:  (L + dL) y^ = b ,  |dL| <= gam n |L| ,  L = unit lower triangle (the loop inside solve_lu)
+     solve_lu / solve_basic: what they return went through exactly these solves with the COMPUTED factors.
+   NOT COVERED (stated, not proved): the factorisation -- how far the computed L U is from P A (resp. the computed
+   echelon form from the input of gauss_with_pivot); that is where the growth factor of Gaussian elimination with
+   partial pivoting enters (Higham Thm 9.3-9.5), so no statement "(A + dA) x^ = b with |dA| small" about solve_lu or
+   solve_basic as a whole is made here.  Also not re-proved: that IEEE binary64 obeys the standard model absent
+   underflow/overflow (done for dot and multiply only, Props/C15.v, Props/C03.v).
+   ====================================================================================================== *)
+From Coq Require Import Reals Lra Lia.
+From OV Require Import Base.RoundModel Proofs.Matrix Proofs.LUSolve Proofs.RoundDot Proofs.RoundMatvec Proofs.RoundBacksolve
+  Proofs.RoundSolve Proofs.RoundFlx Proofs.RoundExamples.
+
+Theorem backsolve_backward_error : forall (u : R), (0 <= u < 1)%R ->
+  forall (fadd fsub fmul fdiv : R -> R -> R),
+  (forall x y : R, exists d : R, (Rabs d <= u)%R /\ fsub x y = ((x - y) * (1 + d))%R) ->
+  (forall x y : R, exists d : R, (Rabs d <= u)%R /\ fmul x y = (x * y * (1 + d))%R) ->
+  (forall x y : R, y <> 0%R -> exists d : R, (Rabs d <= u)%R /\ fdiv x y = (x / y * (1 + d))%R) ->
+  forall (m : matrix (ARm fadd fsub fmul fdiv)) (b x : list R),
+  Proofs.Matrix.wf m -> rows m = cols m -> length b = rows m -> (INR (rows m) * u < 1)%R ->
+  (forall k, (k < rows m)%nat -> rentry fadd fsub fmul fdiv m k k <> 0%R) ->
+  backsolve m b = Ok x ->
+  length x = rows m /\
+  exists dU : nat -> nat -> R,
+    (forall i j, (i < rows m)%nat -> (j < rows m)%nat ->
+       (Rabs (dU i j) <= gam u (rows m) * Rabs (triu fadd fsub fmul fdiv m i j))%R) /\
+    forall i, (i < rows m)%nat ->
+      Rsum (rows m) (fun j => ((triu fadd fsub fmul fdiv m i j + dU i j) * nth j x 0)%R) = nth i b 0%R.
+Proof. intros u Hu fadd fsub fmul fdiv Hs Hm Hd m b x. exact (backsolve_backward_error_lemma u Hu fadd fsub fmul fdiv Hs Hm Hd m b x). Qed.
+Check backsolve_backward_error : forall (u : R), (0 <= u < 1)%R ->
+  forall (fadd fsub fmul fdiv : R -> R -> R),
+  (forall x y : R, exists d : R, (Rabs d <= u)%R /\ fsub x y = ((x - y) * (1 + d))%R) ->
+  (forall x y : R, exists d : R, (Rabs d <= u)%R /\ fmul x y = (x * y * (1 + d))%R) ->
+  (forall x y : R, y <> 0%R -> exists d : R, (Rabs d <= u)%R /\ fdiv x y = (x / y * (1 + d))%R) ->
+  forall (m : matrix (ARm fadd fsub fmul fdiv)) (b x : list R),
+  Proofs.Matrix.wf m -> rows m = cols m -> length b = rows m -> (INR (rows m) * u < 1)%R ->
+  (forall k, (k < rows m)%nat -> rentry fadd fsub fmul fdiv m k k <> 0%R) ->
+  backsolve m b = Ok x ->
+  length x = rows m /\
+  exists dU : nat -> nat -> R,
+    (forall i j, (i < rows m)%nat -> (j < rows m)%nat ->
+       (Rabs (dU i j) <= gam u (rows m) * Rabs (triu fadd fsub fmul fdiv m i j))%R) /\
+    forall i, (i < rows m)%nat ->
+      Rsum (rows m) (fun j => ((triu fadd fsub fmul fdiv m i j + dU i j) * nth j x 0)%R) = nth i b 0%R.
+Print Assumptions backsolve_backward_error.
+(* [[2,1],[0,3]] x = [1,1] in the arithmetic that rounds every operation to 53 bits (1/3 is not representable) *)
+Example backsolve_backward_error_nonvacuous :
+  (0 <= ux < 1)%R /\
+  (forall x y : R, exists d : R, (Rabs d <= ux)%R /\ xsub x y = ((x - y) * (1 + d))%R) /\
+  (forall x y : R, exists d : R, (Rabs d <= ux)%R /\ xmul x y = (x * y * (1 + d))%R) /\
+  (forall x y : R, y <> 0%R -> exists d : R, (Rabs d <= ux)%R /\ xdiv x y = (x / y * (1 + d))%R) /\
+  Proofs.Matrix.wf ex_m2 /\ rows ex_m2 = cols ex_m2 /\ length ex_b2 = rows ex_m2 /\ (INR (rows ex_m2) * ux < 1)%R /\
+  (forall k, (k < rows ex_m2)%nat -> rentry xadd xsub xmul xdiv ex_m2 k k <> 0%R) /\
+  (exists x, backsolve ex_m2 ex_b2 = Ok x) /\ xdiv 1%R 3%R <> (1 / 3)%R.
+Proof.
+  split; [exact ux_range|]. split; [exact xsub_ok|]. split; [exact xmul_ok|]. split; [exact xdiv_ok|].
+  split; [reflexivity|]. split; [reflexivity|]. split; [reflexivity|]. split; [exact ex_size2|].
+  split; [intros [|[|k]] Hk; cbn in Hk; try lia; cbn; lra|]. split; [eexists; reflexivity|exact xdiv_inexact].
+Qed.
+
+(* the unit-lower forward substitution inside solve_lu ([fwd_loop] of Proofs/LUSolve.v is that loop, verbatim) *)
+Theorem fwdsolve_backward_error : forall (u : R), (0 <= u < 1)%R ->
+  forall (fadd fsub fmul fdiv : R -> R -> R),
+  (forall x y : R, exists d : R, (Rabs d <= u)%R /\ fsub x y = ((x - y) * (1 + d))%R) ->
+  (forall x y : R, exists d : R, (Rabs d <= u)%R /\ fmul x y = (x * y * (1 + d))%R) ->
+  forall (m : matrix (ARm fadd fsub fmul fdiv)) (b y : list R),
+  Proofs.Matrix.wf m -> rows m = cols m -> length b = rows m -> (INR (rows m) * u < 1)%R ->
+  Proofs.LUSolve.fwd_loop (A := ARm fadd fsub fmul fdiv) m b = Ok y ->
+  length y = rows m /\
+  exists dL : nat -> nat -> R,
+    (forall i j, (i < rows m)%nat -> (j < rows m)%nat ->
+       (Rabs (dL i j) <= gam u (rows m) * Rabs (tril1 fadd fsub fmul fdiv m i j))%R) /\
+    forall i, (i < rows m)%nat ->
+      Rsum (rows m) (fun j => ((tril1 fadd fsub fmul fdiv m i j + dL i j) * nth j y 0)%R) = nth i b 0%R.
+Proof. intros u Hu fadd fsub fmul fdiv Hs Hm m b y. exact (fwdsolve_backward_error_lemma u Hu fadd fsub fmul fdiv Hs Hm m b y). Qed.
+Check fwdsolve_backward_error : forall (u : R), (0 <= u < 1)%R ->
+  forall (fadd fsub fmul fdiv : R -> R -> R),
+  (forall x y : R, exists d : R, (Rabs d <= u)%R /\ fsub x y = ((x - y) * (1 + d))%R) ->
+  (forall x y : R, exists d : R, (Rabs d <= u)%R /\ fmul x y = (x * y * (1 + d))%R) ->
+  forall (m : matrix (ARm fadd fsub fmul fdiv)) (b y : list R),
+  Proofs.Matrix.wf m -> rows m = cols m -> length b = rows m -> (INR (rows m) * u < 1)%R ->
+  Proofs.LUSolve.fwd_loop (A := ARm fadd fsub fmul fdiv) m b = Ok y ->
+  length y = rows m /\
+  exists dL : nat -> nat -> R,
+    (forall i j, (i < rows m)%nat -> (j < rows m)%nat ->
+       (Rabs (dL i j) <= gam u (rows m) * Rabs (tril1 fadd fsub fmul fdiv m i j))%R) /\
+    forall i, (i < rows m)%nat ->
+      Rsum (rows m) (fun j => ((tril1 fadd fsub fmul fdiv m i j + dL i j) * nth j y 0)%R) = nth i b 0%R.
+Print Assumptions fwdsolve_backward_error.
+Example fwdsolve_backward_error_nonvacuous :   (* unit lower triangle of [[1,0],[3,1]] *)
+  let m := @mkM AFlx [1%R; 0%R; 3%R; 1%R] 2 2 in
+  (0 <= ux < 1)%R /\ Proofs.Matrix.wf m /\ rows m = cols m /\ length ex_b2 = rows m /\ (INR (rows m) * ux < 1)%R /\
+  exists y, Proofs.LUSolve.fwd_loop (A := AFlx) m ex_b2 = Ok y.
+Proof.
+  cbn zeta. split; [exact ux_range|]. split; [reflexivity|]. split; [reflexivity|]. split; [reflexivity|].
+  split; [exact ex_size2|eexists; reflexivity].
+Qed.
+
+(* solve_lu: both triangular solves, with the computed factors *)
+Theorem solve_lu_triangular_backward_error : forall (u : R), (0 <= u < 1)%R ->
+  forall (fadd fsub fmul fdiv : R -> R -> R),
+  (forall x y : R, exists d : R, (Rabs d <= u)%R /\ fsub x y = ((x - y) * (1 + d))%R) ->
+  (forall x y : R, exists d : R, (Rabs d <= u)%R /\ fmul x y = (x * y * (1 + d))%R) ->
+  (forall x y : R, y <> 0%R -> exists d : R, (Rabs d <= u)%R /\ fdiv x y = (x / y * (1 + d))%R) ->
+  forall (m lu perm : matrix (ARm fadd fsub fmul fdiv)) (piv : nat) (b x : list R),
+  Proofs.Matrix.wf m -> (INR (rows m) * u < 1)%R ->
+  lu_decomp m = Ok (lu, piv, perm) ->
+  (forall k, (k < rows m)%nat -> rentry fadd fsub fmul fdiv lu k k <> 0%R) ->
+  solve_lu m b = Ok x ->
+  length x = rows m /\
+  exists (pb y : list R) (dL dU : nat -> nat -> R),
+    multiply perm b = Ok pb /\ length y = rows m /\
+    (forall i j, (i < rows m)%nat -> (j < rows m)%nat ->
+       (Rabs (dL i j) <= gam u (rows m) * Rabs (tril1 fadd fsub fmul fdiv lu i j))%R) /\
+    (forall i j, (i < rows m)%nat -> (j < rows m)%nat ->
+       (Rabs (dU i j) <= gam u (rows m) * Rabs (triu fadd fsub fmul fdiv lu i j))%R) /\
+    (forall i, (i < rows m)%nat ->
+       Rsum (rows m) (fun j => ((tril1 fadd fsub fmul fdiv lu i j + dL i j) * nth j y 0)%R) = nth i pb 0%R) /\
+    (forall i, (i < rows m)%nat ->
+       Rsum (rows m) (fun j => ((triu fadd fsub fmul fdiv lu i j + dU i j) * nth j x 0)%R) = nth i y 0%R).
+Proof. intros u Hu fadd fsub fmul fdiv Hs Hm Hd m lu perm piv b x. exact (solve_lu_triangular_backward_error_lemma u Hu fadd fsub fmul fdiv Hs Hm Hd m lu perm piv b x). Qed.
+Check solve_lu_triangular_backward_error : forall (u : R), (0 <= u < 1)%R ->
+  forall (fadd fsub fmul fdiv : R -> R -> R),
+  (forall x y : R, exists d : R, (Rabs d <= u)%R /\ fsub x y = ((x - y) * (1 + d))%R) ->
+  (forall x y : R, exists d : R, (Rabs d <= u)%R /\ fmul x y = (x * y * (1 + d))%R) ->
+  (forall x y : R, y <> 0%R -> exists d : R, (Rabs d <= u)%R /\ fdiv x y = (x / y * (1 + d))%R) ->
+  forall (m lu perm : matrix (ARm fadd fsub fmul fdiv)) (piv : nat) (b x : list R),
+  Proofs.Matrix.wf m -> (INR (rows m) * u < 1)%R ->
+  lu_decomp m = Ok (lu, piv, perm) ->
+  (forall k, (k < rows m)%nat -> rentry fadd fsub fmul fdiv lu k k <> 0%R) ->
+  solve_lu m b = Ok x ->
+  length x = rows m /\
+  exists (pb y : list R) (dL dU : nat -> nat -> R),
+    multiply perm b = Ok pb /\ length y = rows m /\
+    (forall i j, (i < rows m)%nat -> (j < rows m)%nat ->
+       (Rabs (dL i j) <= gam u (rows m) * Rabs (tril1 fadd fsub fmul fdiv lu i j))%R) /\
+    (forall i j, (i < rows m)%nat -> (j < rows m)%nat ->
+       (Rabs (dU i j) <= gam u (rows m) * Rabs (triu fadd fsub fmul fdiv lu i j))%R) /\
+    (forall i, (i < rows m)%nat ->
+       Rsum (rows m) (fun j => ((tril1 fadd fsub fmul fdiv lu i j + dL i j) * nth j y 0)%R) = nth i pb 0%R) /\
+    (forall i, (i < rows m)%nat ->
+       Rsum (rows m) (fun j => ((triu fadd fsub fmul fdiv lu i j + dU i j) * nth j x 0)%R) = nth i y 0%R).
+Print Assumptions solve_lu_triangular_backward_error.
+(* lu_decomp of [[2,1],[0,3]] in the rounding arithmetic returns the factors ex_lu2 (nonzero diagonal), and solve_lu answers *)
+Example solve_lu_triangular_backward_error_nonvacuous :
+  (0 <= ux < 1)%R /\ Proofs.Matrix.wf ex_m2 /\ (INR (rows ex_m2) * ux < 1)%R /\
+  lu_decomp ex_m2 = Ok (ex_lu2, 0%nat, ex_id2) /\
+  (forall k, (k < rows ex_m2)%nat -> rentry xadd xsub xmul xdiv ex_lu2 k k <> 0%R) /\
+  exists x, solve_lu ex_m2 ex_b2 = Ok x.
+Proof.
+  split; [exact ux_range|]. split; [reflexivity|]. split; [exact ex_size2|]. split; [exact ex_lu_decomp|].
+  split; [exact ex_lu2_diag|exact ex_solve_lu].
+Qed.
+
+(* solve_basic: the back substitution, with the computed echelon form *)
+Theorem solve_basic_triangular_backward_error : forall (u : R), (0 <= u < 1)%R ->
+  forall (fadd fsub fmul fdiv : R -> R -> R),
+  (forall x y : R, exists d : R, (Rabs d <= u)%R /\ fsub x y = ((x - y) * (1 + d))%R) ->
+  (forall x y : R, exists d : R, (Rabs d <= u)%R /\ fmul x y = (x * y * (1 + d))%R) ->
+  (forall x y : R, y <> 0%R -> exists d : R, (Rabs d <= u)%R /\ fdiv x y = (x / y * (1 + d))%R) ->
+  forall (m m' : matrix (ARm fadd fsub fmul fdiv)) (b b' x : list R),
+  Proofs.Matrix.wf m -> (INR (rows m) * u < 1)%R ->
+  gauss_with_pivot m b = Ok (m', b') ->
+  (forall k, (k < rows m)%nat -> rentry fadd fsub fmul fdiv m' k k <> 0%R) ->
+  solve_basic m b = Ok x ->
+  length x = rows m /\
+  exists dU : nat -> nat -> R,
+    (forall i j, (i < rows m)%nat -> (j < rows m)%nat ->
+       (Rabs (dU i j) <= gam u (rows m) * Rabs (triu fadd fsub fmul fdiv m' i j))%R) /\
+    (forall i, (i < rows m)%nat ->
+       Rsum (rows m) (fun j => ((triu fadd fsub fmul fdiv m' i j + dU i j) * nth j x 0)%R) = nth i b' 0%R).
+Proof. intros u Hu fadd fsub fmul fdiv Hs Hm Hd m m' b b' x. exact (solve_basic_triangular_backward_error_lemma u Hu fadd fsub fmul fdiv Hs Hm Hd m m' b b' x). Qed.
+Check solve_basic_triangular_backward_error : forall (u : R), (0 <= u < 1)%R ->
+  forall (fadd fsub fmul fdiv : R -> R -> R),
+  (forall x y : R, exists d : R, (Rabs d <= u)%R /\ fsub x y = ((x - y) * (1 + d))%R) ->
+  (forall x y : R, exists d : R, (Rabs d <= u)%R /\ fmul x y = (x * y * (1 + d))%R) ->
+  (forall x y : R, y <> 0%R -> exists d : R, (Rabs d <= u)%R /\ fdiv x y = (x / y * (1 + d))%R) ->
+  forall (m m' : matrix (ARm fadd fsub fmul fdiv)) (b b' x : list R),
+  Proofs.Matrix.wf m -> (INR (rows m) * u < 1)%R ->
+  gauss_with_pivot m b = Ok (m', b') ->
+  (forall k, (k < rows m)%nat -> rentry fadd fsub fmul fdiv m' k k <> 0%R) ->
+  solve_basic m b = Ok x ->
+  length x = rows m /\
+  exists dU : nat -> nat -> R,
+    (forall i j, (i < rows m)%nat -> (j < rows m)%nat ->
+       (Rabs (dU i j) <= gam u (rows m) * Rabs (triu fadd fsub fmul fdiv m' i j))%R) /\
+    (forall i, (i < rows m)%nat ->
+       Rsum (rows m) (fun j => ((triu fadd fsub fmul fdiv m' i j + dU i j) * nth j x 0)%R) = nth i b' 0%R).
+Print Assumptions solve_basic_triangular_backward_error.
+Example solve_basic_triangular_backward_error_nonvacuous :
+  (0 <= ux < 1)%R /\ Proofs.Matrix.wf ex_m2 /\ (INR (rows ex_m2) * ux < 1)%R /\
+  gauss_with_pivot ex_m2 ex_b2 = Ok (ex_g2, ex_gb2) /\
+  (forall k, (k < rows ex_m2)%nat -> rentry xadd xsub xmul xdiv ex_g2 k k <> 0%R) /\
+  exists x, solve_basic ex_m2 ex_b2 = Ok x.
+Proof.
+  split; [exact ux_range|]. split; [reflexivity|]. split; [exact ex_size2|]. split; [exact ex_gauss|].
+  split; [exact ex_g2_diag|exact ex_solve_basic].
+Qed.
+
+(* ---------- Props/pending/C03_round.v.txt ---------- *)
+(* ======================================================================================================
+   C03 (dense matrix algebra), rounding half -- package round.  Append to Props/C03.v.
+   Matrix * vector "to rounding accuracy": fl(A x) = (A + dA) x with |dA| <= gam n |A| componentwise, n = cols A,
+   for Model/Matrix.v [multiply]
+   (a) in the STANDARD MODEL of floating-point arithmetic (the same Gallina [multiply] at ARm), every shape with n u < 1;
+   (b) for the PRIMITIVE-FLOAT instance itself ([multiply] at AF, IEEE binary64) through Flocq, row by row: for every
+       finite component of the result whose products do not underflow.
+   Unproved remainder: the matrix-matrix product mat_mul (built from multiply column by column: the same bound holds
+   per column but is not stated); (a) assumes the standard model; (b) is silent on subnormal products and overflow.
+   ====================================================================================================== *)
+From Coq Require Import Reals Floats Lra Lia.
+From OV Require Import Base.RoundModel Proofs.Matrix Proofs.RoundDot Proofs.RoundMatvec Proofs.RoundFlx Proofs.ComplexRound
+  Proofs.RoundDotFloat Inst.FloatInst.
+
+Theorem matvec_backward_error : forall (u : R), (0 <= u < 1)%R ->
+  forall (fadd fsub fmul fdiv : R -> R -> R),
+  (forall x y : R, exists d : R, (Rabs d <= u)%R /\ fadd x y = ((x + y) * (1 + d))%R) ->
+  (forall x y : R, exists d : R, (Rabs d <= u)%R /\ fmul x y = (x * y * (1 + d))%R) ->
+  (forall a b : R, fadd 0%R (fmul a b) = fmul a b) ->
+  forall (m : matrix (ARm fadd fsub fmul fdiv)) (v w : list R),
+  Proofs.Matrix.wf m -> (INR (cols m) * u < 1)%R -> multiply m v = Ok w ->
+  length w = rows m /\
+  exists dA : nat -> nat -> R,
+    (forall i j, (i < rows m)%nat -> (j < cols m)%nat ->
+       (Rabs (dA i j) <= gam u (cols m) * Rabs (rentry fadd fsub fmul fdiv m i j))%R) /\
+    forall i, (i < rows m)%nat ->
+      nth i w 0%R = Rsum (cols m) (fun j => ((rentry fadd fsub fmul fdiv m i j + dA i j) * nth j v 0)%R).
+Proof. intros u Hu fadd fsub fmul fdiv Ha Hm H0 m v w. exact (matvec_backward_error_lemma u Hu fadd fsub fmul fdiv Ha Hm H0 m v w). Qed.
+Check matvec_backward_error : forall (u : R), (0 <= u < 1)%R ->
+  forall (fadd fsub fmul fdiv : R -> R -> R),
+  (forall x y : R, exists d : R, (Rabs d <= u)%R /\ fadd x y = ((x + y) * (1 + d))%R) ->
+  (forall x y : R, exists d : R, (Rabs d <= u)%R /\ fmul x y = (x * y * (1 + d))%R) ->
+  (forall a b : R, fadd 0%R (fmul a b) = fmul a b) ->
+  forall (m : matrix (ARm fadd fsub fmul fdiv)) (v w : list R),
+  Proofs.Matrix.wf m -> (INR (cols m) * u < 1)%R -> multiply m v = Ok w ->
+  length w = rows m /\
+  exists dA : nat -> nat -> R,
+    (forall i j, (i < rows m)%nat -> (j < cols m)%nat ->
+       (Rabs (dA i j) <= gam u (cols m) * Rabs (rentry fadd fsub fmul fdiv m i j))%R) /\
+    forall i, (i < rows m)%nat ->
+      nth i w 0%R = Rsum (cols m) (fun j => ((rentry fadd fsub fmul fdiv m i j + dA i j) * nth j v 0)%R).
+Print Assumptions matvec_backward_error.
+(* [[1,2],[3,4]] * [5,6] in the arithmetic that rounds every operation to 53 bits *)
+Example matvec_backward_error_nonvacuous :
+  let m := @mkM AFlx [1%R; 2%R; 3%R; 4%R] 2 2 in
+  (0 <= ux < 1)%R /\
+  (forall x y : R, exists d : R, (Rabs d <= ux)%R /\ xadd x y = ((x + y) * (1 + d))%R) /\
+  (forall x y : R, exists d : R, (Rabs d <= ux)%R /\ xmul x y = (x * y * (1 + d))%R) /\
+  (forall a b : R, xadd 0%R (xmul a b) = xmul a b) /\
+  Proofs.Matrix.wf m /\ (INR (cols m) * ux < 1)%R /\ exists w, multiply m [5%R; 6%R] = Ok w.
+Proof.
+  cbn zeta. split; [exact ux_range|]. split; [exact xadd_ok|]. split; [exact xmul_ok|]. split; [exact xadd_0_mul|].
+  split; [reflexivity|]. split; [cbn [cols INR]; pose proof ux_small; lra|eexists; reflexivity].
+Qed.
+
+(* Higham (3.11): |fl(A x) - A x|_i <= gam n Sum_j |a_ij| |x_j| *)
+Theorem matvec_forward_error : forall (u : R), (0 <= u < 1)%R ->
+  forall (fadd fsub fmul fdiv : R -> R -> R),
+  (forall x y : R, exists d : R, (Rabs d <= u)%R /\ fadd x y = ((x + y) * (1 + d))%R) ->
+  (forall x y : R, exists d : R, (Rabs d <= u)%R /\ fmul x y = (x * y * (1 + d))%R) ->
+  (forall a b : R, fadd 0%R (fmul a b) = fmul a b) ->
+  forall (m : matrix (ARm fadd fsub fmul fdiv)) (v w : list R),
+  Proofs.Matrix.wf m -> (INR (cols m) * u < 1)%R -> multiply m v = Ok w ->
+  forall i, (i < rows m)%nat ->
+    (Rabs (nth i w 0 - Rsum (cols m) (fun j => rentry fadd fsub fmul fdiv m i j * nth j v 0))
+       <= gam u (cols m) * Rsum (cols m) (fun j => Rabs (rentry fadd fsub fmul fdiv m i j) * Rabs (nth j v 0)))%R.
+Proof. intros u Hu fadd fsub fmul fdiv Ha Hm H0 m v w. exact (matvec_forward_error_lemma u Hu fadd fsub fmul fdiv Ha Hm H0 m v w). Qed.
+Check matvec_forward_error : forall (u : R), (0 <= u < 1)%R ->
+  forall (fadd fsub fmul fdiv : R -> R -> R),
+  (forall x y : R, exists d : R, (Rabs d <= u)%R /\ fadd x y = ((x + y) * (1 + d))%R) ->
+  (forall x y : R, exists d : R, (Rabs d <= u)%R /\ fmul x y = (x * y * (1 + d))%R) ->
+  (forall a b : R, fadd 0%R (fmul a b) = fmul a b) ->
+  forall (m : matrix (ARm fadd fsub fmul fdiv)) (v w : list R),
+  Proofs.Matrix.wf m -> (INR (cols m) * u < 1)%R -> multiply m v = Ok w ->
+  forall i, (i < rows m)%nat ->
+    (Rabs (nth i w 0 - Rsum (cols m) (fun j => rentry fadd fsub fmul fdiv m i j * nth j v 0))
+       <= gam u (cols m) * Rsum (cols m) (fun j => Rabs (rentry fadd fsub fmul fdiv m i j) * Rabs (nth j v 0)))%R.
+Print Assumptions matvec_forward_error.
+Example matvec_forward_error_nonvacuous :   (* same instance *)
+  let m := @mkM AFlx [1%R; 2%R; 3%R; 4%R] 2 2 in
+  (0 <= ux < 1)%R /\ Proofs.Matrix.wf m /\ (INR (cols m) * ux < 1)%R /\ (exists w, multiply m [5%R; 6%R] = Ok w) /\ (0 < rows m)%nat.
+Proof.
+  cbn zeta. split; [exact ux_range|]. split; [reflexivity|]. split; [cbn [cols INR]; pose proof ux_small; lra|].
+  split; [eexists; reflexivity|cbn; lia].
+Qed.
+
+(* the primitive-float instance (IEEE binary64, u = 2^-53): fentry is the real value of a stored entry *)
+Theorem matvec_backward_error_float : forall (m : matrix AF) (v w : list PrimFloat.float),
+  Proofs.Matrix.wf m -> multiply (A := AF) m v = Ok w -> (INR (cols m) * u64 < 1)%R ->
+  length w = rows m /\
+  forall i, (i < rows m)%nat -> ffinite (nth i w 0%float) ->
+    (forall j, (j < cols m)%nat -> no_underflow (fentry m i j * FR (nth j v 0%float))%R) ->
+    exists d : nat -> R,
+      (forall j, (j < cols m)%nat -> (Rabs (d j) <= g64 (cols m) * Rabs (fentry m i j))%R) /\
+      FR (nth i w 0%float) = Rsum (cols m) (fun j => ((fentry m i j + d j) * FR (nth j v 0%float))%R).
+Proof. exact matvec_backward_error_float_lemma. Qed.
+Check matvec_backward_error_float : forall (m : matrix AF) (v w : list PrimFloat.float),
+  Proofs.Matrix.wf m -> multiply (A := AF) m v = Ok w -> (INR (cols m) * u64 < 1)%R ->
+  length w = rows m /\
+  forall i, (i < rows m)%nat -> ffinite (nth i w 0%float) ->
+    (forall j, (j < cols m)%nat -> no_underflow (fentry m i j * FR (nth j v 0%float))%R) ->
+    exists d : nat -> R,
+      (forall j, (j < cols m)%nat -> (Rabs (d j) <= g64 (cols m) * Rabs (fentry m i j))%R) /\
+      FR (nth i w 0%float) = Rsum (cols m) (fun j => ((fentry m i j + d j) * FR (nth j v 0%float))%R).
+Print Assumptions matvec_backward_error_float.
+(* [[1.5,2],[3,4]] * [3,4]: finite result, products far from the underflow range *)
+Example matvec_backward_error_float_nonvacuous :
+  let m := @mkM AF [1.5%float; 2%float; 3%float; 4%float] 2 2 in let v := [3%float; 4%float] in
+  Proofs.Matrix.wf m /\ (INR (cols m) * u64 < 1)%R /\
+  exists w, multiply (A := AF) m v = Ok w /\ ffinite (nth 0 w 0%float) /\
+    (forall j, (j < cols m)%nat -> no_underflow (fentry m 0 j * FR (nth j v 0%float))%R).
+Proof.
+  cbn zeta. split; [reflexivity|]. split; [cbn [cols INR]; pose proof u64_small; lra|].
+  eexists. split; [reflexivity|]. split; [apply ffinite_SF; reflexivity|].
+  assert (E15 : FR 1.5%float = 1.5%R) by fr_eval. assert (E2 : FR 2%float = 2%R) by fr_eval.
+  assert (E3 : FR 3%float = 3%R) by fr_eval. assert (E4 : FR 4%float = 4%R) by fr_eval.
+  intros [|[|j]] Hj; cbn in Hj; try lia; unfold fentry; cbn [nth buf cols Nat.mul Nat.add];
+    rewrite ?E15, ?E2, ?E3, ?E4; apply no_underflow_ge1; rewrite Rabs_pos_eq; lra.
+Qed.
+
+(* ---------- Props/pending/C07_round.v.txt ---------- *)
+(* ======================================================================================================
+   C07 (sparse products), rounding half -- package round.  Append to Props/C07.v.
+   The compressed-sparse-column product "to rounding accuracy", Model/Sparse.v [sp_mul] in the STANDARD MODEL of
+   floating-point arithmetic (the same Gallina [sp_mul] at ARm): fl(A x) = (A + dA) x where dA has the sparsity
+   pattern of A and perturbs every STORED value of row i by a relative amount |th| <= gam m_i, m_i = the number of
+   entries stored in row i ([row_entries s i]: the (column, storage index) pairs of row i in accumulation order).
+   Unproved remainder: the standard model itself for IEEE binary64 (only dot / dense multiply are tied to the
+   primitive-float instance, Props/C15.v and Props/C03.v); transpose_multiply (same loop shape, not stated).
+   ====================================================================================================== *)
+From Coq Require Import Reals Lra Lia.
+From OV Require Import Base.RoundModel Proofs.SparseBase Proofs.RoundDot Proofs.RoundSparse Proofs.RoundFlx Proofs.RoundExamples.
+
+Theorem sp_mul_backward_error : forall (u : R), (0 <= u < 1)%R ->
+  forall (fadd fsub fmul fdiv : R -> R -> R),
+  (forall x y : R, exists d : R, (Rabs d <= u)%R /\ fadd x y = ((x + y) * (1 + d))%R) ->
+  (forall x y : R, exists d : R, (Rabs d <= u)%R /\ fmul x y = (x * y * (1 + d))%R) ->
+  (forall a b : R, fadd 0%R (fmul a b) = fmul a b) ->
+  forall (s : sparse (ARm fadd fsub fmul fdiv)) (x y : list R),
+  wfS s -> sp_mul s x = Ok y ->
+  length y = sp_rows s /\
+  forall i, (i < sp_rows s)%nat -> (INR (length (row_entries fadd fsub fmul fdiv s i)) * u < 1)%R ->
+    exists th : nat -> R,
+      (forall t, (t < length (row_entries fadd fsub fmul fdiv s i))%nat ->
+         (Rabs (th t) <= gam u (length (row_entries fadd fsub fmul fdiv s i)))%R) /\
+      nth i y 0%R = Rsum (length (row_entries fadd fsub fmul fdiv s i))
+                      (fun t => (re_val fadd fsub fmul fdiv s i t * (1 + th t)
+                                 * nth (re_col fadd fsub fmul fdiv s i t) x 0)%R).
+Proof. intros u Hu fadd fsub fmul fdiv Ha Hm H0 s x y. exact (sp_mul_backward_error_lemma u Hu fadd fsub fmul fdiv Ha Hm H0 s x y). Qed.
+Check sp_mul_backward_error : forall (u : R), (0 <= u < 1)%R ->
+  forall (fadd fsub fmul fdiv : R -> R -> R),
+  (forall x y : R, exists d : R, (Rabs d <= u)%R /\ fadd x y = ((x + y) * (1 + d))%R) ->
+  (forall x y : R, exists d : R, (Rabs d <= u)%R /\ fmul x y = (x * y * (1 + d))%R) ->
+  (forall a b : R, fadd 0%R (fmul a b) = fmul a b) ->
+  forall (s : sparse (ARm fadd fsub fmul fdiv)) (x y : list R),
+  wfS s -> sp_mul s x = Ok y ->
+  length y = sp_rows s /\
+  forall i, (i < sp_rows s)%nat -> (INR (length (row_entries fadd fsub fmul fdiv s i)) * u < 1)%R ->
+    exists th : nat -> R,
+      (forall t, (t < length (row_entries fadd fsub fmul fdiv s i))%nat ->
+         (Rabs (th t) <= gam u (length (row_entries fadd fsub fmul fdiv s i)))%R) /\
+      nth i y 0%R = Rsum (length (row_entries fadd fsub fmul fdiv s i))
+                      (fun t => (re_val fadd fsub fmul fdiv s i t * (1 + th t)
+                                 * nth (re_col fadd fsub fmul fdiv s i t) x 0)%R).
+Print Assumptions sp_mul_backward_error.
+(* the 2x2 matrix [[1,0],[2,3]] in compressed-column form times [5,6], in the arithmetic that rounds every operation *)
+Example sp_mul_backward_error_nonvacuous :
+  (0 <= ux < 1)%R /\
+  (forall x y : R, exists d : R, (Rabs d <= ux)%R /\ xadd x y = ((x + y) * (1 + d))%R) /\
+  (forall x y : R, exists d : R, (Rabs d <= ux)%R /\ xmul x y = (x * y * (1 + d))%R) /\
+  (forall a b : R, xadd 0%R (xmul a b) = xmul a b) /\
+  wfS ex_sp /\ (exists y, sp_mul ex_sp [5%R; 6%R] = Ok y) /\
+  (forall i, (i < sp_rows ex_sp)%nat -> (INR (length (row_entries xadd xsub xmul xdiv ex_sp i)) * ux < 1)%R) /\
+  length (row_entries xadd xsub xmul xdiv ex_sp 1) = 2%nat.
+Proof.
+  split; [exact ux_range|]. split; [exact xadd_ok|]. split; [exact xmul_ok|]. split; [exact xadd_0_mul|].
+  split; [exact ex_sp_wf|]. split; [eexists; reflexivity|]. split; [exact ex_sp_rows|reflexivity].
+Qed.
+
+Theorem sp_mul_forward_error : forall (u : R), (0 <= u < 1)%R ->
+  forall (fadd fsub fmul fdiv : R -> R -> R),
+  (forall x y : R, exists d : R, (Rabs d <= u)%R /\ fadd x y = ((x + y) * (1 + d))%R) ->
+  (forall x y : R, exists d : R, (Rabs d <= u)%R /\ fmul x y = (x * y * (1 + d))%R) ->
+  (forall a b : R, fadd 0%R (fmul a b) = fmul a b) ->
+  forall (s : sparse (ARm fadd fsub fmul fdiv)) (x y : list R),
+  wfS s -> sp_mul s x = Ok y ->
+  forall i, (i < sp_rows s)%nat -> (INR (length (row_entries fadd fsub fmul fdiv s i)) * u < 1)%R ->
+    (Rabs (nth i y 0 - Rsum (length (row_entries fadd fsub fmul fdiv s i))
+                         (fun t => re_val fadd fsub fmul fdiv s i t * nth (re_col fadd fsub fmul fdiv s i t) x 0))
+       <= gam u (length (row_entries fadd fsub fmul fdiv s i))
+          * Rsum (length (row_entries fadd fsub fmul fdiv s i))
+              (fun t => Rabs (re_val fadd fsub fmul fdiv s i t) * Rabs (nth (re_col fadd fsub fmul fdiv s i t) x 0)))%R.
+Proof. intros u Hu fadd fsub fmul fdiv Ha Hm H0 s x y. exact (sp_mul_forward_error_lemma u Hu fadd fsub fmul fdiv Ha Hm H0 s x y). Qed.
+Check sp_mul_forward_error : forall (u : R), (0 <= u < 1)%R ->
+  forall (fadd fsub fmul fdiv : R -> R -> R),
+  (forall x y : R, exists d : R, (Rabs d <= u)%R /\ fadd x y = ((x + y) * (1 + d))%R) ->
+  (forall x y : R, exists d : R, (Rabs d <= u)%R /\ fmul x y = (x * y * (1 + d))%R) ->
+  (forall a b : R, fadd 0%R (fmul a b) = fmul a b) ->
+  forall (s : sparse (ARm fadd fsub fmul fdiv)) (x y : list R),
+  wfS s -> sp_mul s x = Ok y ->
+  forall i, (i < sp_rows s)%nat -> (INR (length (row_entries fadd fsub fmul fdiv s i)) * u < 1)%R ->
+    (Rabs (nth i y 0 - Rsum (length (row_entries fadd fsub fmul fdiv s i))
+                         (fun t => re_val fadd fsub fmul fdiv s i t * nth (re_col fadd fsub fmul fdiv s i t) x 0))
+       <= gam u (length (row_entries fadd fsub fmul fdiv s i))
+          * Rsum (length (row_entries fadd fsub fmul fdiv s i))
+              (fun t => Rabs (re_val fadd fsub fmul fdiv s i t) * Rabs (nth (re_col fadd fsub fmul fdiv s i t) x 0)))%R.
+Print Assumptions sp_mul_forward_error.
+Example sp_mul_forward_error_nonvacuous :   (* same instance *)
+  (0 <= ux < 1)%R /\ wfS ex_sp /\ (exists y, sp_mul ex_sp [5%R; 6%R] = Ok y) /\
+  (forall i, (i < sp_rows ex_sp)%nat -> (INR (length (row_entries xadd xsub xmul xdiv ex_sp i)) * ux < 1)%R).
+Proof. split; [exact ux_range|]. split; [exact ex_sp_wf|]. split; [eexists; reflexivity|exact ex_sp_rows]. Qed.
+
 (* ---------- Props/pending/C15_round.v.txt ---------- *)
 (* ======================================================================================================
    C15 (vectors), rounding half -- package round.  Append to Props/C15.v.
@@ -129,9 +547,9 @@ Check dot_backward_error_float : forall (v w : list PrimFloat.float) (r : PrimFl
     (forall k, (k < length v)%nat -> (Rabs (th k) <= g64 (length v))%R) /\
     FR r = Rsum (length v) (fun k => (FR (nth k v 0%float) * FR (nth k w 0%float) * (1 + th k))%R).
 Print Assumptions dot_backward_error_float.
-(* 0.1 is not representable and 0.1*3 is inexact: the hypotheses hold on data that do round *)
+(* 0x1.999999999999ap-4 is the double nearest 0.1 and its product with 3 is inexact: the hypotheses hold on data that do round *)
 Example dot_backward_error_float_nonvacuous :
-  let v := [1.5%float; 2%float; 0.1%float] in let w := [3%float; 4%float; 3%float] in
+  let v := [1.5%float; 2%float; 0x1.999999999999ap-4%float] in let w := [3%float; 4%float; 3%float] in
   (exists r, dot (A := AF) v w = Ok r /\ ffinite r) /\
   (forall k, (k < length v)%nat -> no_underflow (FR (nth k v 0%float) * FR (nth k w 0%float))%R) /\
   (INR (length v) * u64 < 1)%R.
@@ -143,7 +561,7 @@ Proof.
     + assert (Ea : FR 2%float = 2%R) by fr_eval. assert (Eb : FR 4%float = 4%R) by fr_eval.
       rewrite Ea, Eb. apply no_underflow_ge1. rewrite Rabs_pos_eq; lra.
     + right. assert (Eb : FR 3%float = 3%R) by fr_eval. rewrite Eb.
-      assert (Ea : (/ 16 <= FR 0.1%float)%R) by fr_eval.
+      assert (Ea : (/ 16 <= FR 0x1.999999999999ap-4%float)%R) by fr_eval.
       apply Rle_trans with (Flocq.Core.Raux.bpow Flocq.Core.Zaux.radix2 (-4)).
       * apply Flocq.Core.Raux.bpow_le. lia.
       * change (Flocq.Core.Raux.bpow Flocq.Core.Zaux.radix2 (-4)) with (/ 16)%R. rewrite Rabs_pos_eq; lra.
